@@ -12,7 +12,7 @@ fn groups_for(prop: &str, ctx: &Ctx) -> Vec<Box<dyn Group>> {
     use groups::*;
     match prop {
         "C19" => vec![Box::new(c19::Split), Box::new(c19::Msg), Box::new(c19::Dispatch::new(ctx)), Box::new(c19::InFlight), Box::new(c19::Cli::new(ctx))],
-        "C09" => vec![Box::new(c09::Reply), Box::new(c09::Tiling), Box::new(c09::Wire)],
+        "C09" => vec![Box::new(c09::Reply), Box::new(c09::Tiling), Box::new(c09::Wire), Box::new(c09::Repr)],
         "C12" => vec![Box::new(c12::Run), Box::new(c12::Serve), Box::new(c12::Hosts)],
         "C18" => vec![Box::new(c18::Write), Box::new(c18::Replace), Box::new(c18::ReplaceSeq), Box::new(c18::FileRead::new()), Box::new(c18::ReadAll), Box::new(c18::Adaptor)],
         "C16" => vec![Box::new(c16::Ops), Box::new(c16::Present), Box::new(c16::Trace), Box::new(c16::EmptyArgs)],
